@@ -25,7 +25,8 @@ TARGETS = {
                  fields={"_node_id": "Z", "_vector": "dict"},
                  methods={"tick": {}, "send": {}, "receive": dict(params={"remote": "dict"}),
                           "snapshot": dict(pure=True),
-                          "happened_before": dict(params={"other": "VectorClock"}, pure=True)}),
+                          "happened_before": dict(params={"other": "VectorClock"}, pure=True),
+                          "is_concurrent": dict(params={"other": "VectorClock"}, pure=True)}),
             HLCTS,
             dict(file="happysimulator/core/logical_clocks.py", cls="HybridLogicalClock",
                  fields={"_node_id": "Z", "_last": "HLCTimestamp"},
